@@ -296,27 +296,32 @@ pub fn huge_h<Tr: ?Sized + Trait, E: Elem + SatisfyTraits<Tr>>(p: crate::c01::P,
     reached_end();
 }
 
-/// a sequence of two capacity operations / pushes on the heap: every realloc / dealloc presents the
-/// layout of the block it refers to, and dropping returns all memory
-pub fn heap_seq_h<Tr: ?Sized + Trait, E: Elem + SatisfyTraits<Tr>>(p: crate::c01::P) {
+/// a concrete sequence of capacity operations / pushes on the heap (enumerated by the driver; payloads
+/// symbolic): every realloc / dealloc presents the layout of the block it refers to, the live block always
+/// matches capacity x size, and dropping returns all memory
+pub fn heap_seq_h<Tr: ?Sized + Trait, E: Elem + SatisfyTraits<Tr>>(p: crate::c01::P, ops: [(u8, usize); 3], nops: usize) {
     reset_all();
     alloc_reset();
     let (mut v, mut m) = build::<Tr, Heap, E>(p.cap, p.len, 0);
     check_heap_state::<E>(v.capacity());
     let mut step = 0;
-    while step < 2 {
-        let which = any_u8();
-        assume(which < 5);
-        let n = p.idx.get();
+    while step < nops {
+        let (which, n) = ops[step];
         match which {
             0 => v.reserve(n),
             1 => v.reserve_exact(n),
             2 => v.shrink_to_fit(),
             3 => v.shrink_to(n),
-            _ => {
+            4 => {
                 let tag = any_u8();
                 v.push(AnyValueWrapper::new(E::make(NEW_ID + step as u8, tag)));
                 m.push(NEW_ID + step as u8, E::norm(tag));
+            }
+            _ => {
+                if m.len > 0 {
+                    drop(v.pop());
+                    let _ = m.pop();
+                }
             }
         }
         check_heap_state::<E>(v.capacity());
@@ -465,6 +470,49 @@ pub fn rawparts_empty<Tr: ?Sized + Trait, E: Elem + SatisfyTraits<Tr>>() {
     drop(hv);
     drop(v2);
     vpk_assert!(alloc_events() == 0 || live_blocks() == 0, "VP[K]: memory leaked");
+    check_all_gone::<E>(false);
+    reached_end();
+}
+
+
+/// C05 lifecycle on the user-defined relocating backend: storage requested once per vector with the
+/// element type's layout, released exactly once, after the remaining elements were destroyed
+pub fn reloc_life_h<Tr: ?Sized + Trait + Cloneable, E: Elem + SatisfyTraits<Tr>>(p: crate::c01::P) {
+    use crate::backends::*;
+    reset_all();
+    let (mut v, mut m) = build::<Tr, Reloc, E>(p.cap, p.len, 0);
+    unsafe {
+        vp_assert!(RELOC_BUILDS == 1, "VP: storage must be requested exactly once per vector");
+        vp_assert!(RELOC_LAST_LAYOUT == (size_of::<E>(), align_of::<E>()), "VP: storage requested with a layout that is not the element type's");
+    }
+    // growth relocates; elements survive
+    let tag = any_u8();
+    v.push(AnyValueWrapper::new(E::make(NEW_ID, tag)));
+    m.push(NEW_ID, E::norm(tag));
+    check_vec::<Tr, Reloc, E>(&v, &m);
+    let ce = v.clone_empty();
+    unsafe {
+        vp_assert!(RELOC_BUILDS == 2, "VP: clone_empty must request storage exactly once");
+        vp_assert!(RELOC_LAST_LAYOUT == (size_of::<E>(), align_of::<E>()), "VP: clone_empty requested a different layout");
+    }
+    drop(ce);
+    unsafe {
+        vp_assert!(RELOC_RELEASES == 1, "VP: dropping a vector must release its storage exactly once");
+    }
+    let c = v.clone();
+    unsafe {
+        vp_assert!(RELOC_BUILDS == 3, "VP: clone must request storage exactly once");
+    }
+    drop(c);
+    unsafe {
+        vp_assert!(RELOC_RELEASES == 2, "VP: dropping a clone must release its storage exactly once");
+        RELOC_EXPECT_EMPTY_ON_RELEASE = true;
+    }
+    drop(v);
+    unsafe {
+        vp_assert!(RELOC_RELEASES == 3, "VP: dropping a vector must release its storage exactly once");
+        vp_assert!(RELOC_LIVE_BLOCKS == 0, "VP: backend blocks leaked");
+    }
     check_all_gone::<E>(false);
     reached_end();
 }
